@@ -11,6 +11,10 @@ use std::sync::Mutex;
 const DEG_M: f64 = EARTH_R_M * std::f64::consts::PI / 180.0;
 const TOL_M: f64 = 10.0;
 
+fn tie_key(a: i64) -> u64 {
+    (a as u64).wrapping_mul(0x9e37_79b9_7f4a_7c15)
+}
+
 fn call(te: &AirbornePosition, to: &AirbornePosition, ye: u32, xe: u32, yo: u32, xo: u32, latest_odd: bool) -> Result<Option<Position>, String> {
     let mut e = *te;
     e.lat_cpr = ye;
@@ -18,6 +22,7 @@ fn call(te: &AirbornePosition, to: &AirbornePosition, ye: u32, xe: u32, yo: u32,
     let mut o = *to;
     o.lat_cpr = yo;
     o.lon_cpr = xo;
+    set_case(4, ((ye as u64) << 32) | xe as u64, ((yo as u64) << 32) | xo as u64, latest_odd as u64);
     guarded(|| if latest_odd { airborne_position(&e, &o) } else { airborne_position(&o, &e) })
 }
 
@@ -210,7 +215,8 @@ pub fn run(ctx: &Ctx, rep: &Report) {
         for (idx, c, e) in local {
             let s = &mut st[idx];
             s.cells += 1;
-            if e > s.max_lat_err {
+            // ties are broken by a fixed scrambling of the position (an arbitrary but fixed cell inside the band) so that the choice does not depend on which worker finishes first
+            if e > s.max_lat_err || (e == s.max_lat_err && s.worst_cell.is_some_and(|w| tie_key(c.a) > tie_key(w.a))) {
                 s.max_lat_err = e;
                 s.worst_cell = Some(c);
             }
